@@ -9,7 +9,7 @@ import random
 
 import torch
 
-from .. import bmgen, probes, zoo
+from .. import bmgen, env, probes, zoo
 from torchsde._brownian import brownian_interval as bi
 
 ID = "C05"
@@ -20,7 +20,8 @@ RULE = ("case = (configuration, wrapper, history seed) or an end-to-end adjoint 
 ASSUMPTIONS = ["bit-identity is demanded for identical (ta, tb) floats and identical flags; W must also agree "
                "bitwise between different flag combinations of the same interval"]
 REQUIRED_COUNTERS = ["repeats", "repeats_after_eviction", "repeats_after_refinement", "repeats_recomputed",
-                     "adjoint_matched_queries", "repeats_with_A", "repeats_cache0", "point_repeats"]
+                     "adjoint_matched_queries", "repeats_with_A", "repeats_cache0", "point_repeats",
+                     "default_dtype_flipping_cases"]
 CASE_TIMEOUT = 900
 
 
@@ -66,10 +67,17 @@ def run_object(case):
         if cfg["levy"] in ("davie", "foster"):
             fl_all.append(dict(return_U=True, return_A=False))
 
+        # "whatever happened in between" includes the process changing PyTorch's default dtype: in 40 % of the cases a
+        # third of the queries is made under default float32 (the objects carry an explicit dtype)
+        flip_rng = random.Random(case["hseed"] + 7)
+        flipping = flip_rng.random() < 0.4
+        cnt["default_dtype_flipping_cases"] = int(flipping)
+
         def ask(a, b, fl):
             qa, qb = bmgen.to_frame(cfg, a, b)
             calls0 = rec.calls
-            out = _as_tuple(bm(qa, qb, **fl))
+            with env.default_dtype(torch.float32 if (flipping and flip_rng.random() < 0.33) else torch.float64):
+                out = _as_tuple(bm(qa, qb, **fl))
             key = (qa, qb, fl["return_U"], fl["return_A"])
             if key in shadow:
                 first, ev0, rf0 = shadow[key]
